@@ -19,6 +19,7 @@ def tables : Tables where
   helpLineAction := Generated.C07.helpLineAction
   handlerErrorClass := Generated.C07.handlerErrorClass
   errorClasses := Generated.C07.errorClasses
+  asyncActions := Generated.C07.asyncActions
 
 /-! hex transport of byte strings -/
 def hexVal (c : Char) : Option Nat :=
